@@ -52,16 +52,34 @@ def shortcut_guard(rep, ex: Explorer):
 
     paths = ex.run(qual, setup, summaries=SUMMARIES, key="shortcut")
     true_guards, n_del = [], 0
+    # first pass: answers other than True that are given without the operator (positive evidence on their own)
+    flagged = False
+    for p in paths:
+        if p.outcome[0] != "return":
+            continue
+        if not any(ev.kind == "delegate" for ev, Q in iter_events(p.events)) and not (isinstance(p.outcome[1], Const) and p.outcome[1].value is True):
+            lits0, other0 = sat_literals(p)
+            other0 = [(k, v) for k, v in other0 if k[0] != "delegate-outcome"]
+            rep.violation("SHORTCUT.guard", site, "shortcut answer", "a path that does not consult the operator returns something other than True",
+                          extracted=repr(p.outcome[1]) + (" under " + "; ".join(show_pred(k if v else ("not", k))[:100] for k, v in other0) if other0 else ""), required="True", function=site)
+            flagged = True
+    if flagged:
+        return len(paths)
     for p in paths:
         lits, other = sat_literals(p)
         other = [(k, v) for k, v in other if k[0] != "delegate-outcome"]
-        if other:
-            raise AnalysisError(f"{site}: shortcut depends on an unknown predicate {other[0][0]!r}")
         g = ("and", tuple(lits))
         dele = [ev for ev, Q in iter_events(p.events) if ev.kind == "delegate"]
         if p.outcome[0] == "raise":
             continue  # exception propagated from the operator
         rv = p.outcome[1]
+        if not dele and not (isinstance(rv, Const) and rv.value is True):
+            # positive evidence whatever else the path tested: an answer other than True is given without the operator
+            rep.violation("SHORTCUT.guard", site, "shortcut answer", "a path that does not consult the operator returns something other than True",
+                          extracted=repr(rv) + (" under " + "; ".join(show_pred(k if v else ("not", k))[:100] for k, v in other) if other else ""), required="True", function=site)
+            continue
+        if other:
+            raise AnalysisError(f"{site}: shortcut depends on an unknown predicate {other[0][0]!r}")
         if dele:
             n_del += 1
             d = dele[0]
@@ -647,6 +665,40 @@ def _multi(rep, ex: Explorer, stats):
                                           extracted=repr(key), required="the query key", function=site)
                         else:
                             rep.check(len(joins) >= 1, "PAR.join", f"{site}:{joins[0].node.lineno}", "worker joined", "every started process is joined", extracted=f"{len(joins)} join(s)", required=">=1", function=site)
+    # the rows handed back: for every submitted query the row its worker stored under the query's key; a query without a
+    # stored row (the worker died or was cut off) is reported as timed out with answer False
+    for p in paths:
+        if p.outcome[0] != "return":
+            continue
+        loops = [ev for ev, Q in iter_events(p.events) if ev.kind == "loop" and not Q and ev.fam == ("members", ("keys", "Q"))]
+        for lp in loops:
+            for case in lp.cases:
+                present = None
+                for k, v in case.guard:
+                    if k[0] == "in" and k[1] == ("elem", lp.evar, "key") and isinstance(k[2], tuple) and k[2][0] == "dict":
+                        present = v
+                if present is None:
+                    continue
+                evs = [e for e, _ in iter_events(case.events)]
+                sets = [e for e in evs if e.kind == "dict.set"]
+                gets = [e for e in evs if e.kind in ("dict.get.generic", "dict.get.unknown", "dict.get.symbolic") and isinstance(e.key, ElemV) and e.key.var == lp.evar]
+                for e in sets:
+                    okk = isinstance(e.key, ElemV) and e.key.var == lp.evar and e.key.role == "key"
+                    rep.check(okk, "PAR.key", f"{site}:{e.node.lineno}", f"result key ({'stored' if present else 'missing'} row)", "the result maps the query's key to its row", extracted=repr(e.key), required="the query key", function=site)
+                    if present:
+                        rep.check(len(gets) == 1, "PAR.key", f"{site}:{e.node.lineno}", "stored row handed back", "a query whose worker stored a row gets exactly that row (looked up under its own key)",
+                                  extracted=f"{len(gets)} lookup(s) under the query's key", required="1", function=site)
+                    else:
+                        v = e.value
+                        okr = isinstance(v, TupleV) and len(v.items) == 4 and isinstance(v.items[0], ElemV) and v.items[0].var == lp.evar and v.items[1] == Const(False) and v.items[2] == Const(True) and not gets
+                        rep.check(okr, "TIMEOUT.row", f"{site}:{e.node.lineno}", "missing row", "a query without a stored row is reported as timed out with answer False", extracted=repr(v)[:120], required="(key, False, True, budget)", function=site)
+    # terminate branch rows: answer False, timed-out flag
+    for p in paths:
+        for ev, Q in iter_events(p.events):
+            if ev.kind == "dict.set" and Q and any(k[0] == "alive" and v is True for k, v in Q[-1][1].guard):
+                v = ev.value
+                okr = isinstance(v, TupleV) and len(v.items) == 4 and v.items[1] == Const(False) and v.items[2] == Const(True)
+                rep.check(okr, "TIMEOUT.row", f"{site}:{ev.node.lineno}", "terminated worker's row", "a worker that had to be terminated is reported as timed out with answer False", extracted=repr(v)[:120], required="(key, False, True, ..)", function=site)
     # every family that starts processes is also joined (loop over the same processes)
     started = joined = False
     for p in paths:
